@@ -538,3 +538,17 @@ def guard_facts(cfg, defs: Defs, node: int) -> list[tuple[str, bool]]:
     for test, truth in cfg.controls(node):
         out += conjuncts(defs.resolve(test), truth)
     return out
+
+
+def unreachable_when(cfg, defs: Defs, node: int, env: dict[str, bool]) -> bool:
+    """No assignment of the other atoms lets every branch decision controlling `node` come out as required when the
+    atoms of `env` have the given truth values (e.g. env={'cleanup': False}: the node only runs when cleanup is true)."""
+    import itertools
+
+    ctrl = [(defs.resolve(t), truth) for t, truth in cfg.controls(node)]
+    atoms = sorted({a for t, _tr in ctrl for a in bool_atoms(t)} - set(env))[:8]
+    for vals in itertools.product((True, False), repeat=len(atoms)):
+        e = dict(zip(atoms, vals)) | env
+        if all(bool_eval(t, e) in (truth, None) for t, truth in ctrl):
+            return False
+    return True
